@@ -44,8 +44,10 @@ import Thanos.Model.Capnp
                                          c  the context of the oldest request blocked at the gate is cancelled
                                          k  the context of the oldest running request is cancelled (client gone)
                                          f  the oldest request inside the write path completes
-      answer     per step `running.waiting.gauge.total` (after the freed slots were taken by blocked requests),
-                 joined by `,`, then ` p=<panics> max=<most requests inside the write path at once>`
+                                         r  the limits are reloaded (Limiter.loadConfig: a new gate object,
+                                            same max_concurrency) while the requests above are in flight
+      answer     per step `running.waiting.gauge.total` (all gates together; gauge/total of the stored gate; after the freed slots were taken by blocked requests),
+                 joined by `,`, then ` p=<panics> max=<most requests of one configuration inside the write path at once>`
 
   gate.first <entries> <cap> <K> <reload>                                          (C24)
       K requests reach a freshly configured limiter at the same time (all of them are first arrivals: the
@@ -281,20 +283,30 @@ end V2
 section GateOps
 open Thanos.Gate
 
-def parseStep : String → Option Ev
-  | "a" => some .arrive
-  | "x" => some .arriveCancelled
-  | "c" => some .cancel
-  | "k" => some .cancelRunning
-  | "f" => some .finish
+def parseStep : String → Option SEv
+  | "a" => some .a
+  | "x" => some .x
+  | "c" => some .c
+  | "k" => some .k
+  | "f" => some .f
+  | "r" => some .r
   | _ => none
 
-def gateRun (doneFirst : Bool) (cap : Nat) (evs : List Ev) : String :=
-  let (s, out) := evs.foldl (fun (acc : Gate.St × List String) e =>
-    let s := acc.1
-    let s' := scriptStep' doneFirst s e
-    (s', acc.2 ++ [s!"{s'.running}.{s'.waiting}.{s'.gauge}.{s'.total}"])) (Gate.St.init cap, [])
-  s!"{joinWith "," out} p={s.panics} max={s.maxRunning}"
+/-- the scripted run over the limiter: start-up load, then the steps; the metrics are those of the
+    gate that is stored now (a reload re-registers them for the new gate) -/
+def gateRun (doneFirst relookup : Bool) (cap : Nat) (evs : List SEv) : String :=
+  let l0 := lstep codeLazyGate doneFirst relookup (Lim.init cap) .load
+  let (l, out) := evs.foldl (fun (acc : Lim × List String) e =>
+    let l' := lscriptStep codeLazyGate doneFirst relookup acc.1 e
+    let running := (l'.gates.map (·.st.running)).sum
+    let waiting := (l'.gates.map (·.st.waiting)).sum
+    let (gauge, total) := match l'.stored.bind (fun g => l'.gates[g]?) with
+      | some r => (r.st.gauge, r.st.total)
+      | none => (0, 0)
+    (l', acc.2 ++ [s!"{running}.{waiting}.{gauge}.{total}"])) (l0, [])
+  let panics := (l.gates.map (·.st.panics)).sum
+  let mx := l.gates.foldl (fun m r => max m r.st.maxRunning) 0
+  s!"{joinWith "," out} p={panics} max={mx}"
 
 /-- K simultaneous first arrivals at the limiter of the code as it is (the arrivals are concurrent;
     the limiter hands every one of them the stored gate, so their order does not matter) -/
@@ -302,7 +314,7 @@ def gateFirst (cap k reload : Nat) : String :=
   let loads : List LEv := if reload = 0 then [.load] else [.load, .load]
   let c := if reload = 0 then cap else reload
   -- a reload changes the configured capacity: the model's limiter is created with the capacity in force
-  let l := lrun codeLazyGate codeDoneFirstHTTP c (loads ++ List.replicate k .arrive)
+  let l := lrun codeLazyGate codeDoneFirstHTTP codeRelookupHTTP c (loads ++ List.replicate k .arrive)
   match l.stored.bind (fun g => l.gates[g]?) with
   | some r => s!"{r.st.running}.{r.st.waiting} max={r.st.maxRunning}"
   | none => "bad-op"
@@ -428,8 +440,8 @@ def handle : List String → String
     match parseNat? cap, (listOf ',' steps).mapM parseStep with
     | some cap, some evs =>
       if evs.isEmpty then "bad-op"
-      else if entry = "h" then gateRun Gate.codeDoneFirstHTTP cap evs
-      else if entry = "o" then gateRun Gate.codeDoneFirstOTLP cap evs
+      else if entry = "h" then gateRun Gate.codeDoneFirstHTTP Gate.codeRelookupHTTP cap evs
+      else if entry = "o" then gateRun Gate.codeDoneFirstOTLP Gate.codeRelookupOTLP cap evs
       else "bad-op"
     | _, _ => "bad-op"
   | "v2.tr" :: syms :: tss =>
